@@ -63,6 +63,23 @@ theorem renameWorld_facts {w : World} (hI : Grid.Inv w) (m : Dict Name Name)
     rw [f_bk, e10]
     split <;> exact ⟨rfl, rfl, rfl⟩
 
+/-- `rename_blocks` returns normally when `fix_block_mapping` does, with the state of the three loops -/
+theorem renameBlocks_eq {w : World} {m m1 : Dict Name Name} {fix : Bool} (hm : effectiveMap m fix = some m1) :
+    step w (.renameBlocks m fix) = { w := rebuildConnection (rebuildBlock (renameLoop m1 w w.blocklist)) } := by
+  unfold effectiveMap at hm
+  cases fix with
+  | false =>
+    simp only [Bool.false_eq_true, if_false, Option.some.injEq] at hm; subst hm
+    simp only [step, renameBlocks, Bool.false_eq_true, if_false, Out.ofR]
+  | true =>
+    simp only [if_true] at hm
+    cases hf : fixBlockMapping m with
+    | error e => rw [hf] at hm; cases hm
+    | ok m2 =>
+      rw [hf] at hm; simp only [Option.some.injEq] at hm; subst hm
+      simp only [step, renameBlocks, if_true, hf, Out.ofR]
+
+
 /-! ### list.index -/
 
 theorem indexOf?_some {l : List Nat} {x i : Nat} (h : indexOf? l x = some i) : l[i]? = some x := by
